@@ -148,7 +148,7 @@ class Gen:
             if kind == 'set':
                 b.line(indent, [C(name), '.insert(1000 + fresh++);'])   # exclusion set-insert-fresh
             else:
-                b.line(indent, [C(name), '.push_back(%s);' % self.elem(kind)])
+                b.line(indent, [C(name), '.%s(%s);' % (r.choice(['push_back', 'push_back', 'emplace_back']) if kind != 'string' else 'push_back', self.elem(kind))])
         elif op == 'push-front':
             b.line(indent, [C(name), '.push_front(%s);' % self.elem(kind)])
         elif op == 'pop':
@@ -175,22 +175,54 @@ class Gen:
         elif op == 'resize':
             b.line(indent, [C(name), '.resize(%d%s);' % (r.randint(0, 5), ", 'r'" if kind == 'string' else '')])
         elif op == 'assign':
-            b.line(indent, [C(name), '.assign(%d, %s);' % (r.randint(0, 4), self.elem(kind))])
+            if kind in ('vector', 'deque') and r.random() < 0.4:
+                self.feat('assign:list')
+                b.line(indent, [C(name), ' = {%s};' % ', '.join(self.elem(kind) for _ in range(r.randint(0, 4)))]
+                       if r.random() < 0.5 else
+                       [C(name), '.assign({%s});' % ', '.join(self.elem(kind) for _ in range(r.randint(1, 4)))])
+            else:
+                b.line(indent, [C(name), '.assign(%d, %s);' % (r.randint(0, 4), self.elem(kind))])
         elif op == 'insert':
-            b.line(indent, [C(name), '.insert(', C(name), '.begin(), %s);' % self.elem(kind)])
+            form = r.choice(['one', 'one', 'n', 'list']) if kind in ('vector', 'deque') else 'one'
+            self.feat('insert:' + form)
+            if form == 'one':
+                b.line(indent, [C(name), '.insert(', C(name), '.begin(), %s);' % self.elem(kind)])
+            elif form == 'n':
+                b.line(indent, [C(name), '.insert(', C(name), '.begin(), %d, %s);' % (r.randint(0, 3), self.elem(kind))])
+            else:
+                b.line(indent, [C(name), '.insert(', C(name), '.end(), {%s});' % ', '.join(self.elem(kind) for _ in range(r.randint(1, 3)))])
         elif op == 'erase':
             b.line(indent, ['if (!', C(name), '.empty()) {'])
             b.line(indent + 1, [C(name), '.erase(', C(name), '.begin());'])
             b.line(indent, ['}'])
         elif op == 'append':
-            form = r.choice(['+=', 'append', '+=c'])
+            form = r.choice(['+=', 'append', '+=c', 'append-n-char', 'append-lit-n', 'append-str', '+=str', 'assign-lit',
+                             'insert-lit', 'push_back'])
             lit = 'uvwxyz'[:r.randint(0, 4)]
+            others = [c for c in conts if c[1] == 'string' and c[0] != name]
+            if form in ('append-str', '+=str') and not others:
+                form = 'append'
+            self.feat('string:' + form)
             if form == '+=':
                 b.line(indent, [C(name), ' += "%s";' % lit])
             elif form == 'append':
                 b.line(indent, [C(name), '.append("%s");' % lit])
-            else:
+            elif form == '+=c':
                 b.line(indent, [C(name), " += 'k';"])
+            elif form == 'append-n-char':
+                b.line(indent, [C(name), ".append(%d, 'n');" % r.randint(0, 4)])
+            elif form == 'append-lit-n':
+                b.line(indent, [C(name), '.append("abcdef", %d);' % r.randint(0, 5)])
+            elif form == 'append-str':
+                b.line(indent, [C(name), '.append(', C(r.choice(others)[0]), ');'])
+            elif form == '+=str':
+                b.line(indent, [C(name), ' += ', C(r.choice(others)[0]), ';'])
+            elif form == 'assign-lit':
+                b.line(indent, [C(name), '.assign("%s");' % lit])
+            elif form == 'insert-lit':
+                b.line(indent, [C(name), '.insert(0, "%s");' % lit])
+            else:
+                b.line(indent, [C(name), ".push_back('p');"])
         elif op == 'swap':
             same = [c for c in conts if c[1] == kind and c[0] != name]
             if same:
